@@ -10,6 +10,18 @@ import (
 	"gosmt/sym"
 )
 
+func (m *Machine) nextConcrete(tag string) StreamRec {
+	if m.cpos >= len(m.Concrete) {
+		panic(fmt.Sprintf("concrete stream exhausted at %s", tag))
+	}
+	r := m.Concrete[m.cpos]
+	m.cpos++
+	if r.Tag != tag {
+		panic(fmt.Sprintf("concrete stream tag mismatch: want %q have %q", tag, r.Tag))
+	}
+	return r
+}
+
 func (m *Machine) minTerm(a, b *sym.Term) *sym.Term {
 	return m.C.Ite(m.C.Cmp("bvult", a, b), a, b)
 }
@@ -202,6 +214,9 @@ func (m *Machine) intercept(fn *ssa.Function) (func([]Value) Value, bool) {
 			w := map[string]int{"verifNondetByte": 8, "verifNondetU16": 16, "verifNondetU32": 32, "verifNondetU64": 64, "verifNondetInt": 64}[name]
 			return func(args []Value) Value {
 				tag := m.concreteString(args[0].(Str))
+				if m.Concrete != nil {
+					return Int{c.Const(w, m.nextConcrete(tag).Val)}
+				}
 				t := c.Var(m.freshName(tag), w)
 				m.nondets = append(m.nondets, nondetRec{tag, t})
 				m.events = append(m.events, event{tag: tag, term: t})
@@ -210,6 +225,9 @@ func (m *Machine) intercept(fn *ssa.Function) (func([]Value) Value, bool) {
 		case "verifNondetBool":
 			return func(args []Value) Value {
 				tag := m.concreteString(args[0].(Str))
+				if m.Concrete != nil {
+					return Bool{c.Bool(m.nextConcrete(tag).Val != 0)}
+				}
 				t := c.Var(m.freshName(tag), 0)
 				m.nondets = append(m.nondets, nondetRec{tag, t})
 				m.events = append(m.events, event{tag: tag, term: t})
@@ -219,10 +237,17 @@ func (m *Machine) intercept(fn *ssa.Function) (func([]Value) Value, bool) {
 			return func(args []Value) Value {
 				tag := m.concreteString(args[0].(Str))
 				n := args[1].(Int).T
+				if m.Concrete != nil {
+					rec := m.nextConcrete(tag)
+					bs := make([]byte, n.Val)
+					copy(bs, rec.Bytes)
+					obj := m.newObj(nil, &bytesCell{m.litRope(bs)})
+					return Slice{Base: Ptr{Obj: obj}, Off: m.i64(0), Len: n, Cap: n}
+				}
 				f := m.freshName(tag)
 				var r Rope
 				rec := bufRec{tag: tag, f: f, n: n}
-				if n.IsConst() && n.Val <= 512 {
+				if n.IsConst() && n.Val <= 2048 {
 					lit := make([]*sym.Term, n.Val)
 					for i := range lit {
 						lit[i] = c.Var(fmt.Sprintf("%s_b%d", f, i), 8)
@@ -245,6 +270,9 @@ func (m *Machine) intercept(fn *ssa.Function) (func([]Value) Value, bool) {
 				if b.IsTrue() {
 					return nil
 				}
+				if m.Concrete != nil {
+					panic(&pathEnd{"assume"})
+				}
 				if !m.sat(b) {
 					panic(&pathEnd{"assume"})
 				}
@@ -255,18 +283,39 @@ func (m *Machine) intercept(fn *ssa.Function) (func([]Value) Value, bool) {
 			return func(args []Value) Value {
 				id := m.concreteString(args[0].(Str))
 				b := args[1].(Bool).T
-				m.Reached["assert:"+id]++
-				if b.IsTrue() {
+				if m.Concrete != nil {
+					m.Log = append(m.Log, fmt.Sprintf("assert:%s=%v", id, b.IsTrue()))
 					return nil
 				}
-				res, model, bufs := m.modelNow(c.Not(b))
-				if res == sym.Unsat {
+				if b.IsTrue() {
+					m.Sh.Mu.Lock()
+					m.Sh.Asserts[id]++
+					m.Sh.Mu.Unlock()
+					return nil
+				}
+				res, _ := m.S.CheckPC(m.pc, c.Not(b), nil)
+				switch res {
+				case sym.Unsat:
+					m.Sh.Mu.Lock()
+					m.Sh.Asserts[id]++
+					m.Sh.Mu.Unlock()
+					m.pc = append(m.pc, b)
+					return nil
+				case sym.Unknown:
+					m.noteInconclusive(id)
 					m.pc = append(m.pc, b)
 					return nil
 				}
-				if res == sym.Sat && !m.seenViol["assert:"+id] {
-					m.seenViol["assert:"+id] = true
-					m.Violations = append(m.Violations, Violation{ID: id, Kind: "assert", Model: model, Bytes: bufs, Path: append([]int(nil), m.taken...), Stream: m.streamNow(c.Not(b))})
+				key := "assert:" + id + "|" + tagString(m.tags)
+				if m.firstSeen(key) {
+					st := m.streamNow(c.Not(b))
+					if st == nil {
+						m.noteInconclusive(id)
+					} else {
+						m.Sh.Mu.Lock()
+						m.Sh.Violations = append(m.Sh.Violations, Violation{Harness: m.Name, ID: id, Kind: "assert", Tags: m.copyTags(), Path: append([]int(nil), m.taken...), Stream: st})
+						m.Sh.Mu.Unlock()
+					}
 				}
 				if !m.sat(b) {
 					panic(&pathEnd{"assert-always-fails"})
@@ -274,9 +323,35 @@ func (m *Machine) intercept(fn *ssa.Function) (func([]Value) Value, bool) {
 				m.pc = append(m.pc, b)
 				return nil
 			}, true
+		case "verifBound":
+			return func(args []Value) Value {
+				if m.Tier > 0 {
+					return args[1]
+				}
+				return args[0]
+			}, true
+		case "verifTag":
+			return func(args []Value) Value {
+				k := m.concreteString(args[0].(Str))
+				v := args[1].(Int).T
+				if !v.IsConst() {
+					panic(unsupported("verifTag with a symbolic value: " + k))
+				}
+				m.tags[k] = v.Signed()
+				return nil
+			}, true
+		case "verifSymbolic":
+			// reports whether the engine (not the native replay runtime) is executing
+			return func(args []Value) Value { return Bool{c.Bool(m.Concrete == nil)} }, true
 		case "verifSplitInt":
 			return func(args []Value) Value {
 				lo, hi := int(args[1].(Int).T.Signed()), int(args[2].(Int).T.Signed())
+				if hi < lo {
+					panic(&pathEnd{"assume"})
+				}
+				if m.Concrete != nil {
+					return Int{m.i64(int(int64(m.nextConcrete(m.concreteString(args[0].(Str))).Val)))}
+				}
 				var d int
 				if m.dpos < len(m.prefix) {
 					d = m.prefix[m.dpos]
@@ -288,7 +363,21 @@ func (m *Machine) intercept(fn *ssa.Function) (func([]Value) Value, bool) {
 				}
 				m.dpos++
 				m.taken = append(m.taken, d)
-				m.events = append(m.events, event{tag: m.concreteString(args[0].(Str)), conc: int64(d), kind: 2})
+				stag := m.concreteString(args[0].(Str))
+				m.events = append(m.events, event{tag: stag, conc: int64(d), kind: 2})
+				m.Sh.Mu.Lock()
+				if bb, ok := m.Sh.Bounds[stag]; !ok {
+					m.Sh.Bounds[stag] = [2]int64{int64(lo), int64(hi)}
+				} else {
+					if int64(lo) < bb[0] {
+						bb[0] = int64(lo)
+					}
+					if int64(hi) > bb[1] {
+						bb[1] = int64(hi)
+					}
+					m.Sh.Bounds[stag] = bb
+				}
+				m.Sh.Mu.Unlock()
 				return Int{m.i64(d)}
 			}, true
 		case "verifAnd":
@@ -297,12 +386,19 @@ func (m *Machine) intercept(fn *ssa.Function) (func([]Value) Value, bool) {
 			return func(args []Value) Value { return Bool{c.Or(args[0].(Bool).T, args[1].(Bool).T)} }, true
 		case "verifImplies":
 			return func(args []Value) Value { return Bool{c.Implies(args[0].(Bool).T, args[1].(Bool).T)} }, true
-		case "verifIteInt":
+		case "verifIteInt", "verifIteU64":
 			return func(args []Value) Value { return Int{c.Ite(args[0].(Bool).T, args[1].(Int).T, args[2].(Int).T)} }, true
 		case "verifUF":
 			return func(args []Value) Value {
 				tag := m.concreteString(args[0].(Str))
 				outLen := int(args[1].(Int).T.Signed())
+				if m.Concrete != nil {
+					rec := m.nextConcrete("uf:" + tag)
+					bs := make([]byte, outLen)
+					copy(bs, rec.Bytes)
+					obj := m.newObj(nil, &bytesCell{m.litRope(bs)})
+					return Slice{Base: Ptr{Obj: obj}, Off: m.i64(0), Len: m.i64(outLen), Cap: m.i64(outLen)}
+				}
 				ins := args[2].(Slice)
 				k := m.concreteInt(ins.Len, "verifUF inputs")
 				var in [][]*sym.Term
@@ -367,7 +463,22 @@ func (m *Machine) intercept(fn *ssa.Function) (func([]Value) Value, bool) {
 			}, true
 		case "verifReach":
 			return func(args []Value) Value {
-				m.Reached[m.concreteString(args[0].(Str))]++
+				id := m.concreteString(args[0].(Str))
+				if m.Concrete != nil {
+					m.Log = append(m.Log, "reach:"+id)
+					return nil
+				}
+				m.Sh.Mu.Lock()
+				m.Sh.Reached[id]++
+				first := m.Sh.Reached[id] == 1
+				m.Sh.Mu.Unlock()
+				if first {
+					if st := m.streamNow(nil); st != nil {
+						m.Sh.Mu.Lock()
+						m.Sh.Samples = append(m.Sh.Samples, Sample{Reach: id, Stream: st})
+						m.Sh.Mu.Unlock()
+					}
+				}
 				return nil
 			}, true
 		}
@@ -382,8 +493,34 @@ func (m *Machine) intercept(fn *ssa.Function) (func([]Value) Value, bool) {
 		}
 	}
 	switch full {
-	case "(*sync.Mutex).Lock", "(*sync.Mutex).Unlock", "(*sync.RWMutex).Lock", "(*sync.RWMutex).Unlock",
-		"(*sync.RWMutex).RLock", "(*sync.RWMutex).RUnlock", "runtime.KeepAlive", "runtime.SetFinalizer", "fmt.Printf", "fmt.Println", "fmt.Print":
+	case "(*sync.Mutex).Lock", "(*sync.RWMutex).Lock":
+		return func(args []Value) Value {
+			k := ptrKey(args[0].(Ptr))
+			if m.heldK[k] {
+				m.goPanic("self-deadlock: mutex locked twice on one goroutine")
+			}
+			m.heldK[k] = true
+			return nil
+		}, true
+	case "(*sync.Mutex).Unlock", "(*sync.RWMutex).Unlock":
+		return func(args []Value) Value {
+			k := ptrKey(args[0].(Ptr))
+			if !m.heldK[k] {
+				m.goPanic("fatal error: sync: unlock of unlocked mutex")
+			}
+			delete(m.heldK, k)
+			return nil
+		}, true
+	case "(*sync.Mutex).TryLock":
+		return func(args []Value) Value {
+			k := ptrKey(args[0].(Ptr))
+			if m.heldK[k] {
+				return m.truth(false)
+			}
+			m.heldK[k] = true
+			return m.truth(true)
+		}, true
+	case "(*sync.RWMutex).RLock", "(*sync.RWMutex).RUnlock", "runtime.KeepAlive", "runtime.SetFinalizer", "fmt.Printf", "fmt.Println", "fmt.Print":
 		return func(args []Value) Value {
 			if fn.Signature.Results().Len() > 0 {
 				return m.zeroValue(fn.Signature.Results())
@@ -463,3 +600,17 @@ func (m *Machine) intercept(fn *ssa.Function) (func([]Value) Value, bool) {
 	}
 	return nil, false
 }
+
+func ptrKey(p Ptr) string {
+	if p.Obj == nil {
+		return "nil"
+	}
+	k := fmt.Sprintf("o%d", p.Obj.ID)
+	for _, pe := range p.Path {
+		k += fmt.Sprintf(".%d:%d", pe.Kind, pe.I)
+	}
+	return k
+}
+
+// MutexHeld reports whether the mutex at p is held (used by the verifMutexHeld intrinsic).
+func (m *Machine) mutexHeld(p Ptr) bool { return m.heldK[ptrKey(p)] }
